@@ -162,6 +162,10 @@ func TestC15Gaps(t *testing.T) {
 	// programs the corpus does not have: empty bodies, an empty find before another command
 	progs["extra_empty_find"] = []string{"find", "all"}
 	progs["extra_empty_find_then_find"] = []string{"find", "all", "find", "all", "'a'"}
+	// a replace command without a pattern: `3with` needs no blank, so the layouts with
+	// and without one must agree (a find command without a pattern is accepted)
+	progs["extra_empty_replace_amount"] = []string{"replace", "top", "3", "with", "'x'"}
+	progs["extra_empty_replace_skip_take"] = []string{"replace", "skip", "1", "take", "2", "with", "'x'", "find", "all", "'a'"}
 	progs["extra_empty_group"] = []string{"find", "all", "(", ")", "'a'", "{", "}", "=", "s"}
 	progs["extra_three_way_or"] = []string{"find", "all", "'cat'", "or", "'dog'", "or", "'emu'", "or", "not", "'x'"}
 	progs["extra_parenthesised_expressions"] = []string{"set", "f", "to", "transform", "set", "n", "to", "(", "matchLength", "+", "1", ")", "*", "(", "2", "-", "matchLength", ")", "return", "(", "match", "+", "n", ")", "end", "set", "p", "to", "pattern", "letter", "begin", "return", "(", "match", "==", "'a'", ")", "or", "not", "(", "match", "<", "'c'", ")", "end", "replace", "all", "p", "with", "f"}
